@@ -567,6 +567,39 @@ func gen() ([]byte, error) {
 	}
 	writeList(&b, "marshal_flows", "marshal_flow", flows)
 
+	// (h) the force flag handed to the first-byte sniff, and the HandleListener call sites
+	var sniffSites, lcalls []string
+	for _, p := range fds {
+		fi, fd := p.fi, p.fd
+		if !strings.HasPrefix(fi.rel, "server/") {
+			continue
+		}
+		ast.Inspect(fd.Body, func(n ast.Node) bool {
+			c, ok := n.(*ast.CallExpr)
+			if !ok {
+				return true
+			}
+			if isSel(c.Fun, "netpkg", "CheckAndEnableTLSServerConnWithTimeout") && len(c.Args) == 4 {
+				guard := "SgNone"
+				if cond, inElse, ok := innermostIf(fd.Body, c.Pos()); ok {
+					guard = "(SgUnknown " + q(text(cond)) + ")"
+					if u, isU := cond.(*ast.UnaryExpr); isU && !inElse && u.Op == token.NOT && lastName(u.X) == "internal" {
+						if _, isId := u.X.(*ast.Ident); isId {
+							guard = "SgNotInternal"
+						}
+					}
+				}
+				sniffSites = append(sniffSites, fmt.Sprintf("mk_sniff_site %s %s %s %s", q(fi.rel), q(fd.Name.Name), guard, forceExpr(fd, c.Args[2])))
+			}
+			if se, ok := c.Fun.(*ast.SelectorExpr); ok && se.Sel.Name == "HandleListener" && len(c.Args) == 2 {
+				lcalls = append(lcalls, fmt.Sprintf("mk_listener_call %s %s", q(text(c.Args[0])), q(text(c.Args[1]))))
+			}
+			return true
+		})
+	}
+	writeList(&b, "sniff_sites", "sniff_site", sniffSites)
+	writeList(&b, "listener_calls", "listener_call", lcalls)
+
 	// (g) shape of NewCryptoReadWriter: the cipher must be built for every key value
 	cf, err := parseOne("pkg/util/net/conn.go")
 	if err != nil {
@@ -657,6 +690,74 @@ func crwShape(f *ast.File) string {
 		return "CrwAlways"
 	}
 	return unknown("NewCryptoReadWriter not found")
+}
+
+// isConfigForce: <x>.cfg.Transport.TLS.Force
+func isConfigForce(e ast.Expr) bool {
+	names := []string{"Force", "TLS", "Transport", "cfg"}
+	for _, n := range names {
+		se, ok := e.(*ast.SelectorExpr)
+		if !ok || se.Sel.Name != n {
+			return false
+		}
+		e = se.X
+	}
+	_, ok := e.(*ast.Ident)
+	return ok
+}
+
+// forceExpr resolves the tlsOnly argument: the config field itself, or a local variable assigned
+// exactly once in the function, from the config field.
+func forceExpr(fd *ast.FuncDecl, arg ast.Expr) string {
+	if isConfigForce(arg) {
+		return "FConfigForce"
+	}
+	id, ok := arg.(*ast.Ident)
+	if !ok {
+		return "(FUnknown " + q(text(arg)) + ")"
+	}
+	var defs []ast.Expr
+	other := false
+	ast.Inspect(fd.Body, func(n ast.Node) bool {
+		switch x := n.(type) {
+		case *ast.AssignStmt:
+			for i, l := range x.Lhs {
+				if li, ok := l.(*ast.Ident); ok && li.Name == id.Name {
+					if len(x.Lhs) == len(x.Rhs) {
+						defs = append(defs, x.Rhs[i])
+					} else {
+						other = true
+					}
+				}
+			}
+		case *ast.ValueSpec:
+			for i, nm := range x.Names {
+				if nm.Name == id.Name {
+					if i < len(x.Values) {
+						defs = append(defs, x.Values[i])
+					} else {
+						other = true
+					}
+				}
+			}
+		case *ast.IncDecStmt:
+			if li, ok := x.X.(*ast.Ident); ok && li.Name == id.Name {
+				other = true
+			}
+		case *ast.UnaryExpr:
+			if li, ok := x.X.(*ast.Ident); ok && x.Op == token.AND && li.Name == id.Name {
+				other = true
+			}
+		}
+		return true
+	})
+	if other || len(defs) != 1 {
+		return "(FUnknown " + q(fmt.Sprintf("%s assigned %d times", id.Name, len(defs))) + ")"
+	}
+	if isConfigForce(defs[0]) {
+		return "FConfigForce"
+	}
+	return "(FUnknown " + q(text(defs[0])) + ")"
 }
 
 func isErrCheck(e ast.Expr) bool {
